@@ -72,6 +72,15 @@ fn main() {
                 println!("{}", printer::print_plain(&gen_small::nth(5, i)));
             }
         }
+        "miri" => {
+            // miri <c09|c12|c14> <shard> <nshards> <count>: a small in-process workload meant to be
+            // run under `cargo +nightly miri run` (undefined behaviour in dependencies, Rc cycles
+            // reported as leaks). Violations found by the ordinary monitors are printed as usual.
+            let kind = args.get(2).map(String::as_str).unwrap_or("c09");
+            let n = |i: usize, d: u64| args.get(i).and_then(|x| x.parse::<u64>().ok()).unwrap_or(d);
+            let (shard, nshards, count) = (n(3, 0), n(4, 1).max(1), n(5, 10));
+            std::process::exit(props::miri_shard(kind, seed, shard, nshards, count));
+        }
         "show" => {
             // show <prop> <tier> <section> <idx>: print the input of a case without running it
             let Some(p) = props::find(&args[2]) else { usage() };
